@@ -205,6 +205,10 @@ def generate(seed: int, tier: str = "quick") -> dict:
         # on the same object: the retried fit is the one compared with the in-memory fit
         cfg["fault_fit"] = {"call": rng.choice([1, 1, 2, 2, 3, 4, 6, 9, 12]), "at": rng.choice([1, 1, 2, 3, 5, 8, 20, 60]),
                             "exc": rng.choice(["InjectedFault", "MemoryError", "OSError"])}
+    cfg["rot_refit_fault"] = None
+    if cfg["rot_params"] and rng.random() < 0.35:
+        cfg["rot_refit_fault"] = {"call": rng.choice([1, 1, 2, 3, 5, 8]), "at": rng.choice([1, 1, 2, 3, 5, 8, 20]),
+                                  "exc": rng.choice(["InjectedFault", "MemoryError", "OSError"])}
     cfg["s1"] = deferred and rng.random() < (0.3 if tier == "quick" else 0.6)
     cfg["compute_twice"] = rng.random() < 0.6
     nm = int((cfg["rot_params"] or params)["n_modes"])
@@ -493,6 +497,36 @@ def execute(cfg: dict, *, stop_at_first=True, trace=False) -> RunResult:
                     if ok():
                         input_still_lazy(srot, "after rotator.fit")
                     frag = frag or _fragile_after(rrot)
+                    if ok() and cfg.get("rot_refit_fault"):
+                        # the same rotator object is fitted again and that fit is interrupted by a task failure; whatever
+                        # the rotator then is, compute() on it may not load the input data; a clean refit follows
+                        step("rot_refit_fault")
+                        rf = cfg["rot_refit_fault"]
+                        sim.cfg.permanent_at, sim.cfg.permanent_exc, sim.cfg.permanent_call = int(rf["at"]), rf["exc"], int(rf["call"])
+                        sim.cfg.armed_calls = 0
+                        o2 = oracle.capture(srot.fit, sub)
+                        sim.cfg.permanent_at = None
+                        sim.cfg.armed_calls = 0
+                        res.log.append(f"  rotator refit under an injected fault -> {o2.kind()}")
+                        if not o2.ok and o2.exc_type == rf["exc"] and "injected" in o2.exc_msg:
+                            counts["task_faults"] += 1
+                            counts["rot_refit_faults"] = counts.get("rot_refit_faults", 0) + 1
+                            probes.add("rotator refit interrupted by a task failure, compute(), clean refit")
+                            oracle.capture(srot.compute)
+                            input_still_lazy(srot, "after an interrupted rotator refit and compute()")
+                            if ok():
+                                input_still_lazy(sub, "after an interrupted rotator refit and compute()")
+                        if not o2.ok and ok():
+                            step("rot_refit")
+                            o3 = oracle.capture(srot.fit, sub)
+                            if _nonconv(o3):
+                                counts["inconclusive"] += 1
+                                srot = None
+                            elif not o3.ok:
+                                violate("E1", f"outcome:{o3.kind()}!=ok", f"rotator.fit on the dask-backed model after an interrupted refit -> {o3.kind()} {o3.exc_msg[:200]!r}", "rot_refit")
+                        elif _nonconv(o2):
+                            counts["inconclusive"] += 1
+                            srot = None
 
             target_s, target_r = (srot, rrot) if srot is not None else (sub, ref)
             tspec_rot = srot is not None
@@ -702,6 +736,8 @@ def simplifications(cfg: dict):
         yield variant(fault_compute=None)
     if cfg.get("fault_fit"):
         yield variant(fault_fit=None)
+    if cfg.get("rot_refit_fault"):
+        yield variant(rot_refit_fault=None)
     if cfg.get("s1"):
         yield variant(s1=False)
     if cfg.get("compute_twice"):
